@@ -24,6 +24,9 @@ CHECKS.update({
    text="For every width 0..64 (thorough; boundary widths in quick), negative and extreme minima, values at range extremes and alternating bit patterns, TLC extracts each record's byte stream from the data packets of the file the real writer produced and requires it to be exactly the LSB-first packing of value-min at width BitLen(max-min), contiguous across packets, zero padded; the real reader must return the values.",
    note=FILE_NOTE, ref="6 C12"),
 })
+CHECKS["C07"] = dict(category="model_checking", technique="TLA+ PageSpec reader model with altered pages: exhaustive TLC search, every edge replayed on the real PagedReader; Trace_C07 validation of exhaustive single-bit flips of real files in both CRC builds",
+   text="Page level: all reader histories (seek/read/align, reads after failures) over small images with every subset of up to 2/3 altered pages, exhaustively in TLC with the verdict/no-stale-data properties, each edge replayed on the real PagedReader. File level: every single-bit flip of small real files (plus sampled 2/3-bit flips, bursts, overwrites), several operation orders on one reader, outcome classes validated by TLC (fail or identical to the unaltered file; validate_crc fails iff a page is altered); software and crc32c builds give byte-identical files whose every page seal equals CRC-32C computed in TLA+.",
+   note="Trusts TLC, PageSpec/Crc32c, harness recording (outcome classes are byte comparisons with the unaltered file's result) and its independent CRC used to confirm that an alteration is detectable. The Hamming-distance clause follows analytically from the pinned polynomial.", ref="6 C07")
 NOT_APPLICABLE = {}
 
 def main():
